@@ -35,6 +35,7 @@ CLAIMED = {
         "the specification's WHOLE-FILE decoder (Spec/DecodeFile.v) reads the written file as the inflated IDAT content under exactly the header and palette/key of the written image (C02_output_decodes); "
         "the IDAT content of the emitted candidate (no assumption about the reductions) is the compressor's answer for a stream that the specification cuts into exactly the rows the header implies, each with a filter type 0..4, and that un-filters to the image data (C02_idat_content_partial). "
         "THE WHOLE CALL: the container conditions of everything optimize_png writes follow from the parsed input (C02_container_side_conditions) and the file returned for a valid input is strictly parsed and decoded by the specification (C02_optimized_file_wellformed). "
+        "The chunk sequence written for an animation is accepted by the APNG specification's reader (consistent acTL/fcTL/fdAT numbering) and reads back the frames of the PngData (C02_animation_numbering). "
         "Every output of every run (PNG, chunk-rich, APNG; all options incl. lossy, zopfli, force, strip) is validated by a strict validator written from the specification and decoded by the extracted spec; a constraint counts only if the input satisfied it.",
    design="DESIGN.md §3 C02",
    note=BASE_NOTE + "PARTIAL: the IDAT-content theorem is stated for runs without alpha rewriting (with -a: C03_emitted_stream_alpha_partial); that inflate undoes the compressor is the zlib oracle assumption; the input-relative ordering constraints of ancillary chunks are decided per run by the validator oracle. "
@@ -65,7 +66,7 @@ CLAIMED = {
    text="Machine-checked (Properties/C07.v): the policy function is the documented one (the `safe` list equals the list parsed from MANUAL.txt on this run, so the theorem is re-checked against the current source); picture-defining chunks are dispatched before the policy is consulted; "
         "a stripped chunk leaves no trace in the parser state; a kept chunk is recorded with identical name and payload; the C2PA rule; postprocess_chunks is exactly the documented conditional filter (nothing invented, order kept). "
         "FILE TO FILE: the ancillary list from_slice builds is a closed formula over the specification's chunk list of the input (kept chunks before the image data, marker, kept chunks after, each once and in file order; nothing invented), "
-        "postprocess_chunks is a filter acting on each side of the image data, the chunk sequence written is explicit (C07_written_closed_form), and the whole call is their composition (C07_file_chunk_flow); "
+        "postprocess_chunks is a filter acting on each side of the image data, the ICC decision rewrites the side on which the first iCCP chunk stands (C07_icc_decision_each_side), the chunk sequence written is explicit (C07_written_closed_form), and the whole call is their composition (C07_file_chunk_flow); "
         "order: each of the two classes written before IDAT keeps its order (C07_order_partial); 'same relative order' across the classes is refuted with the F9 witness (C07_order_refuted). "
         "End to end: model replay on chunk-rich inputs x all policy kinds, and a declarative oracle computing the expected ancillary list of the output.",
    design="DESIGN.md §3 C07",
